@@ -33,15 +33,31 @@ INFO = {
 HASH = {}
 
 
+_SEQ_IDS = {}
+_HSEQ = z3.Function('xxh32_of_sequence', z3.IntSort(), z3.IntSort())
+
+
 class _XX:
+    """streaming hash object: the digest is a function of everything fed so far (one item: that item's symbolic hash value;
+    several updates: an uninterpreted function of the sequence), like the real xxh32 object"""
+
     def __init__(self, seed=0):
-        self.v = None
+        self.seq = []
 
     def update(self, b):
-        self.v = b
+        self.seq.append(bytes(b))
+
+    def reset(self):
+        self.seq = []
 
     def intdigest(self):
-        return HASH[self.v]
+        if len(self.seq) == 1:
+            return HASH[self.seq[0]]
+        key = tuple(self.seq)
+        sid = _SEQ_IDS.setdefault(key, len(_SEQ_IDS))
+        e = _HSEQ(sid)
+        symx.CTX.solver.add(e >= 0, e < 2 ** 32)
+        return SInt(e, 0, 2 ** 32 - 1)
 
 
 class Regs(xnp.Arr):
